@@ -11,7 +11,9 @@ open TE TE.Count
 def parseAvg (s : String) : Except String Avg :=
   match s with
   | "micro" => .ok .micro | "macro" => .ok .macro | "weighted" => .ok .weighted
-  | "none" => .ok .none | _ => .error s!"bad average {s}"
+  | "none" => .ok .none
+  | "None" => .ok .none      -- the string "None": accepted by `_precision_param_check` only (see `avgStringOk`)
+  | _ => .error s!"bad average {s}"
 
 def parseCrit (s : String) : Except String Crit :=
   match s with
@@ -48,6 +50,11 @@ def mcShapeOk (i t : T) (numClasses : Option Nat) : Bool :=
 
 def avgOf (a : Args) : Except String Avg := parseAvg (a.strD "average" "micro")
 
+/-- the protocol cannot tell Python's `None` from the string "none" (both print `none`); the capitalised string
+    "None" is in the `average_options` of `multiclass_precision` only, every other parameter check raises ValueError. -/
+def avgStringOk (a : Args) (acceptsCapitalNone : Bool) : Bool :=
+  a.strD "average" "micro" != "None" || acceptsCapitalNone
+
 def io (a : Args) : Except Err (T × T) := liftP do
   let i ← a.tensor "input"; let t ← a.tensor "target"; pure (i, t)
 
@@ -67,7 +74,7 @@ def famBinaryAccuracy (cfg : Args) : Except String Fam := do
 def famMulticlassAccuracy (cfg : Args) : Except String Fam := do
   let avg ← avgOf cfg; let nc ← cfg.nat? "num_classes"; let k := (← cfg.nat? "k").getD 1
   let C := nc.getD 0
-  let paramOk := !(avg == .weighted) && !(avg != .micro && (nc.isNone || nc == some 0)) && k ≥ 1
+  let paramOk := !(avg == .weighted) && !(avg != .micro && (nc.isNone || nc == some 0)) && k ≥ 1 && avgStringOk cfg false
   pure {
     stat := fun a => do
       if !paramOk then throw .value
@@ -159,6 +166,7 @@ def famMulticlassPRF (kind : PRFKind) (cfg : Args) : Except String Fam := do
   let avg ← avgOf cfg; let nc ← cfg.nat? "num_classes"
   let C := nc.getD 0
   let paramOk := !(avg != .micro && (nc.isNone || nc == some 0))
+    && avgStringOk cfg (match kind with | .precision => true | _ => false)
   pure {
     stat := fun a => do
       if !paramOk then throw .value
